@@ -122,6 +122,16 @@ def project_state(draw, compliant_bias=True, max_files=7, git=None, expr_depth=1
                 seen.add(p2)
                 files.append({"path": p2, "kind": "text", "style": f0["style"], "own": None, "dotlic": None, "table": None, "para": None, "unreadable": None, "block": False})
                 twin = (f0["path"], p2)
+    case_twin = False
+    if files and gkind != "dep5" and draw(st.integers(0, 3)) == 0:
+        # two covered files whose paths differ in letter case only (Makefile / makefile)
+        f0 = draw(st.sampled_from(files))
+        d0, b0 = (f0["path"].rsplit("/", 1) + [""])[:2] if "/" in f0["path"] else ("", f0["path"])
+        p2 = (d0 + "/" if d0 else "") + b0.swapcase()
+        if p2 not in seen and p2.lower() == f0["path"].lower() and p2 != f0["path"] and not p2.lower().endswith((".license", ".spdx")):
+            seen.add(p2)
+            files.append({"path": p2, "kind": "text", "style": f0["style"], "own": None, "dotlic": None, "table": None, "para": None, "unreadable": None, "block": False})
+            case_twin = True
     prefix_sibling = False
     if gkind == "dep5" and draw(st.integers(0, 2)) == 0:
         # a file without information whose path merely STARTS WITH a path that a dep5 paragraph names literally (README / README.md)
@@ -140,7 +150,7 @@ def project_state(draw, compliant_bias=True, max_files=7, git=None, expr_depth=1
     fallback = None
     if gkind == "toml" and draw(st.integers(0, 2)) == 0:
         fallback = dict(draw(info(idpool, not compliant_bias)), prec=draw(st.sampled_from(["closest", "aggregate"])))
-    state = {"files": files, "gkind": gkind, "fallback": fallback, "git": use_git, "noise": {}, "licenses": [], "defects": (["same-base-name-elsewhere"] if twin else []) + (["path-extends-a-dep5-entry"] if prefix_sibling else []), "extra_used": [], "twin": twin}
+    state = {"files": files, "gkind": gkind, "fallback": fallback, "git": use_git, "noise": {}, "licenses": [], "defects": (["same-base-name-elsewhere"] if twin else []) + (["path-extends-a-dep5-entry"] if prefix_sibling else []) + (["path-differs-in-case-only"] if case_twin else []), "extra_used": [], "twin": twin}
     # noise that must not be reported
     for nm in draw(st.lists(st.sampled_from(["LICENSE", "COPYING.md", "docs/LICENSE-MIT", "empty.py", "link.py", "sbom.spdx", "src/x.spdx.json", "ignored.log", "dangling.py", "linkdir"]), max_size=4, unique=True)):
         if nm == "ignored.log" and not use_git:
